@@ -137,9 +137,10 @@ theorem bc7Fields_single (r g b a : Nat) (hr : r ≤ 255) (hg : g ≤ 255) (hb :
   obtain ⟨f0, _, _, _, _, _, _, f7, f8⟩ := sum_fields _ _ _ _ _ _ a hr0 hr1 hg0 hg1 hb0 hb1 ha'
   rw [bc7Fields_mode5 _ (sum_mode _ _ _ _ _ _ _), f0, f7, f8]
 
-theorem bc7Single_meets_rule (q : Quality) (r g b a : Nat) (hr : r ≤ 255) (hg : g ≤ 255) (hb : b ≤ 255) (ha : a ≤ 255) :
+theorem bc7Single_meets_rule (q : Quality) (inside : List Bool) (r g b a : Nat) (hr : r ≤ 255) (hg : g ≤ 255)
+    (hb : b ≤ 255) (ha : a ≤ 255) :
     ∃ f, bc7Fields (bc7Single r g b a) = some f ∧
-      bc7Meets (bc7Rule q (List.replicate 16 ⟨r, g, b, a⟩) f.mode f.part f.rot) f = true := by
+      bc7Meets (bc7Rule q (List.replicate 16 ⟨r, g, b, a⟩) inside f.mode f.part f.rot) f = true := by
   refine ⟨_, bc7Fields_single r g b a hr hg hb ha, ?_⟩
   have hs : singleColour (List.replicate 16 (⟨r, g, b, a⟩ : Px)) = some ⟨r, g, b, a⟩ := by
     simp [singleColour, List.replicate]
